@@ -163,24 +163,40 @@ Qed.
 (* ---------- the raise inventory of the current source is the one modelled ---------- *)
 Open Scope string_scope.
 Lemma raises_pinned :
+  Gen.Gates.qcow2_QCow2_init_raises =
+    [("(self.header.magic != QCOW2_MAGIC)", "InvalidHeaderError");
+     ("(outside(self.header.version, 2, 3))", "InvalidHeaderError");
+     ("(outside(self.header.cluster_bits, c_qcow2.MIN_CLUSTER_BITS, c_qcow2.MAX_CLUSTER_BITS))", "InvalidHeaderError");
+     ("(self.compression_type == c_qcow2.QCOW2_COMPRESSION_TYPE_ZSTD and (not HAS_ZSTD))", "RuntimeError");
+     ("(self.subcluster_size < 1 << c_qcow2.MIN_CLUSTER_BITS)", "InvalidHeaderError");
+     ("(self.header.crypt_method)", "NotImplementedError");
+     ("(self.header.incompatible_features & ~QCOW2_INCOMPAT_MASK)", "InvalidHeaderError");
+     ("(self.header.incompatible_features & c_qcow2.QCOW2_INCOMPAT_DATA_FILE) and (data_file is None)", "Error");
+     ("(self.header.backing_file_offset) and (backing_file is None)", "Error")] /\
   Gen.Gates.vhdx_VHDX_init_raises =
     [("(self.file_identifier.signature != b'vhdxfile')", "InvalidSignature");
      ("(self.header.signature != b'head')", "InvalidSignature");
      ("(self.has_parent) and (self.parent_locator.type != VHDX_PARENT_LOCATOR_GUID)", "ValueError")] /\
-  Gen.Gates.vhdx_RegionTable_init_raises = [("(self.header.signature != b'regi')", "InvalidSignature")] /\
-  Gen.Gates.vhdx_RegionTable_get_raises = [("(not data and required)", "InvalidVirtualDisk")] /\
-  Gen.Gates.vhdx_MetadataTable_init_raises = [("(self.header.signature != b'metadata')", "InvalidSignature")] /\
-  Gen.Gates.vhdx_MetadataTable_get_raises = [("(not data and required)", "InvalidVirtualDisk")] /\
-  Gen.Gates.vdi_VDI_init_raises = [("(self.header.Signature != VDI_SIGNATURE)", "Error")] /\
+  Gen.Gates.vhdx_RegionTable_init_raises =
+    [("(self.header.signature != b'regi')", "InvalidSignature")] /\
+  Gen.Gates.vhdx_RegionTable_get_raises =
+    [("(not L1 and required)", "InvalidVirtualDisk")] /\
+  Gen.Gates.vhdx_MetadataTable_init_raises =
+    [("(self.header.signature != b'metadata')", "InvalidSignature")] /\
+  Gen.Gates.vhdx_MetadataTable_get_raises =
+    [("(not L1 and required)", "InvalidVirtualDisk")] /\
+  Gen.Gates.vdi_VDI_init_raises =
+    [("(self.header.Signature != VDI_SIGNATURE)", "Error")] /\
   Gen.Gates.hdd_HDS_init_raises =
-    [("(self.header.m_Sig not in (c_hdd.SIGNATURE_STRUCTURED_DISK_V1, c_hdd.SIGNATURE_STRUCTURED_DISK_V2))",
-      "InvalidHeaderError")] /\
-  Gen.Gates.hdd_HDD_init_raises = [("(not descriptor_path.exists())", "ValueError")] /\
+    [("(self.header.m_Sig not in (c_hdd.SIGNATURE_STRUCTURED_DISK_V1, c_hdd.SIGNATURE_STRUCTURED_DISK_V2))", "InvalidHeaderError")] /\
+  Gen.Gates.hdd_HDD_init_raises =
+    [("(not L1.exists())", "ValueError")] /\
   Gen.Gates.hdd_HDD_open_raises =
-    [("loop[storage in self.descriptor.storage_data.storages] and loop[guid in chain[::-1]] and not (image.type == 'Compressed') and (image.type != 'Plain')",
-      "ValueError")] /\
+    [("loop and loop and (L1.type != 'Compressed') and (L1.type != 'Plain')", "ValueError")] /\
+  Gen.Gates.hdd_XMLEntry_from_xml_raises =
+    [("(element.tag != cls.__name__)", "ValueError")] /\
   Gen.Gates.vmdk_SparseExtentHeader_init_raises =
-    [("not (magic == VMDK_MAGIC) and not (magic == SESPARSE_MAGIC) and not (magic == COWD_MAGIC)", "NotImplementedError")] /\
+    [("(L1 != VMDK_MAGIC) and (L1 != SESPARSE_MAGIC) and (L1 != COWD_MAGIC)", "NotImplementedError")] /\
   Gen.Gates.hyperv_HyperVFile_init_raises =
     [("(self.header.signature != c_hyperv.SIGNATURE_STORAGE_HEADER)", "InvalidSignature");
      ("(self.header.version != 1024)", "NotImplementedError")] /\
@@ -193,23 +209,15 @@ Lemma raises_pinned :
   Gen.Gates.envelope_Envelope_init_raises =
     [("(self.header.magic != FILE_HEADER_MAGIC)", "ValueError");
      ("(self.header.version != 2)", "ValueError");
-     ("loop[req in ('vmware.keyInfo', 'vmware.cipherName', 'vmware.keyHash')] and (req not in self.attributes)", "ValueError");
-     ("(self.cipher_name == 'AES-256-GCM') and (aead_footer.version != 1)", "ValueError");
-     ("not (self.cipher_name == 'AES-256-GCM')", "NotImplementedError")] /\
+     ("loop[L1 in ('vmware.keyInfo', 'vmware.cipherName', 'vmware.keyHash')] and (L1 not in self.attributes)", "ValueError");
+     ("(self.cipher_name == 'AES-256-GCM') and (L1.version != 1)", "ValueError");
+     ("(self.cipher_name != 'AES-256-GCM')", "NotImplementedError")] /\
   Gen.Gates.envelope_KeyStore_init_raises =
-    [("(not self.mode)", "ValueError"); ("not (self.mode == 'NONE')", "NotImplementedError")] /\
+    [("(not self.mode)", "ValueError");
+     ("(self.mode != 'NONE')", "NotImplementedError")] /\
   Gen.Gates.vmx_KeySafe_from_text_raises =
-    [("(identifier != 'vmware:key')", "ValueError");
-     ("(not isinstance(locators, list) and (not all((isinstance(member, Pair) for member in locators))))", "ValueError")] /\
-  Gen.Gates.vmx__parse_key_locator_raises = [("True", "NotImplementedError")] /\
-  Gen.Gates.qcow2_QCow2_init_raises =
-    [("(self.header.magic != QCOW2_MAGIC)", "InvalidHeaderError");
-     ("(self.header.version < 2 or self.header.version > 3)", "InvalidHeaderError");
-     ("(self.header.cluster_bits < c_qcow2.MIN_CLUSTER_BITS or self.header.cluster_bits > c_qcow2.MAX_CLUSTER_BITS)", "InvalidHeaderError");
-     ("(self.compression_type == c_qcow2.QCOW2_COMPRESSION_TYPE_ZSTD and (not HAS_ZSTD))", "RuntimeError");
-     ("(self.subcluster_size < 1 << c_qcow2.MIN_CLUSTER_BITS)", "InvalidHeaderError");
-     ("(self.header.crypt_method)", "NotImplementedError");
-     ("(self.header.incompatible_features & ~QCOW2_INCOMPAT_MASK)", "InvalidHeaderError");
-     ("(self.header.incompatible_features & c_qcow2.QCOW2_INCOMPAT_DATA_FILE) and (data_file is None)", "Error");
-     ("(self.header.backing_file_offset) and (backing_file is None)", "Error")].
+    [("(L1 != 'vmware:key')", "ValueError");
+     ("(not isinstance(L1, list) and (not all((isinstance(L2, Pair) for L2 in L1))))", "ValueError")] /\
+  Gen.Gates.vmx__parse_key_locator_raises =
+    [("True", "NotImplementedError")].
 Proof. repeat split. Qed.
